@@ -33,6 +33,9 @@ type c13prog struct {
 type c13exp struct {
 	Method string
 	DB     int
+	// the credentials the connection holds: those of its last SUCCESSFUL AUTH (none before)
+	User, Pass string
+	HasPw      bool
 }
 
 // c13step is one request of a program as the shadow sees it. What a SELECT or AUTH does to the connection's
@@ -41,6 +44,8 @@ type c13step struct {
 	Kind   string // select-int | select-bad | auth-right | auth-wrong | other | call
 	N      int
 	Method string
+	User   string // AUTH: the credentials presented
+	Pass   string
 }
 
 // c13soft: the server of this case requires no password (connections start authorized) but has an application
@@ -81,7 +86,7 @@ func c13program(r *rng.R, tag string, n int, password bool) c13prog {
 			if password || c13soft {
 				if r.Bool() {
 					p.Reqs = append(p.Reqs, resp.Cmd("AUTH", c08pass))
-					p.Steps = append(p.Steps, c13step{Kind: "auth-right"})
+					p.Steps = append(p.Steps, c13step{Kind: "auth-right", Pass: c08pass})
 					authed = true
 				} else if r.Bool() {
 					p.Reqs = append(p.Reqs, resp.Cmd("AUTH", rng.Pick(r, []string{"wrong", "", "Secr3"})))
@@ -108,7 +113,7 @@ func c13program(r *rng.R, tag string, n int, password bool) c13prog {
 			p.Reqs = append(p.Reqs, resp.Cmd(o.args...))
 			p.Steps = append(p.Steps, c13step{Kind: "call", Method: o.method})
 			if authed {
-				p.Expect = append(p.Expect, c13exp{o.method, db})
+				p.Expect = append(p.Expect, c13exp{Method: o.method, DB: db})
 			}
 		}
 	}
@@ -146,6 +151,7 @@ func c13shadow(p c13prog, out []byte, password bool) (exp []c13exp, problem stri
 	}
 	ok := resp.Status("OK")
 	db, authed := 0, !password
+	user, pass, hasPw := "", "", false
 	for i, st := range p.Steps {
 		f := frames[i]
 		switch st.Kind {
@@ -169,12 +175,13 @@ func c13shadow(p c13prog, out []byte, password bool) (exp []c13exp, problem stri
 					return nil, fmt.Sprintf("connection %s request %d: a wrong AUTH was answered +OK", p.Tag, i)
 				}
 				authed = true
+				user, pass, hasPw = st.User, st.Pass, true
 			} else if st.Kind == "auth-right" {
 				return nil, fmt.Sprintf("connection %s request %d: AUTH with the exact password answered %s", p.Tag, i, clipS(f.String(), 80))
 			}
 		case "call":
 			if authed {
-				exp = append(exp, c13exp{st.Method, db})
+				exp = append(exp, c13exp{st.Method, db, user, pass, hasPw})
 			}
 		}
 	}
@@ -190,7 +197,7 @@ func c13judge(res *run.Result, progs []c13prog, outs [][]byte, calls []double.Ca
 			return false
 		}
 		for j := range exp {
-			if j >= len(progs[i].Expect) || exp[j] != progs[i].Expect[j] {
+			if j >= len(progs[i].Expect) || exp[j].DB != progs[i].Expect[j].DB || exp[j].Method != progs[i].Expect[j].Method {
 				res.Count("expectations_decided_by_a_refused_select", 1)
 				break
 			}
@@ -222,6 +229,8 @@ func c13judge(res *run.Result, progs []c13prog, outs [][]byte, calls []double.Ca
 				what = fmt.Sprintf("conn.Database()=%d, this connection's own SELECT history says %d", c.DB, e.DB)
 			case !c.Auth:
 				what = "IsAuthrized()=false inside a handler call"
+			case c.User != e.User || c.Pass != e.Pass || c.HasPw != e.HasPw:
+				what = fmt.Sprintf("credentials=(%q,%q,presented=%v) seen by the handler, but this connection's last successful AUTH carried (%q,%q,presented=%v)", c.User, c.Pass, c.HasPw, e.User, e.Pass, e.HasPw)
 			case c.UData != int64(i+1):
 				what = fmt.Sprintf("per-connection user data counter=%d, this connection made %d calls", c.UData, i+1)
 			case i > 0 && c.Conn != cs[0].Conn:
@@ -373,7 +382,7 @@ func init() {
 	run.Register(&run.Prop{
 		ID: "C13", Level: "exploration",
 		Rule: func(tier string) string {
-			return "case = 2..8 connections served by one server through hook H1 (children are built with the Go race detector), each running its own program of SELECT n (small, negative and huge indices; ill-formed tokens), AUTH (right and wrong; a quarter of the cases require a password, another quarter require none but have an application authenticator that refuses wrong credentials with (false, nil) rather than an error) and single-call data commands whose keys carry the issuing connection's tag. Schedules: (systematic) two connections in lock-step under ALL 70 interleavings of two 4-request programs; (free-running) every connection on its own goroutine with seeded Gosched yields inside the handler double. Monitor: every handler call is attributed to the issuing connection by its key tag and must show conn.Database(), IsAuthrized(), a per-connection counter kept in the connection's sync.Map and the connection UUID equal to that connection's own command history, where a SELECT or AUTH counts iff its reply was +OK (programs are sequential per connection, so the expectation is exact under any interleaving); UUIDs of different connections differ. Evidence reports distinct observed interleavings (hash of the global call order)"
+			return "case = 2..8 connections served by one server through hook H1 (children are built with the Go race detector), each running its own program of SELECT n (small, negative and huge indices; ill-formed tokens), AUTH (right and wrong; a quarter of the cases require a password, another quarter require none but have an application authenticator that refuses wrong credentials with (false, nil) rather than an error) and single-call data commands whose keys carry the issuing connection's tag. Schedules: (systematic) two connections in lock-step under ALL 70 interleavings of two 4-request programs; (free-running) every connection on its own goroutine with seeded Gosched yields inside the handler double. Monitor: every handler call is attributed to the issuing connection by its key tag and must show conn.Database(), IsAuthrized(), conn.UserName()/Password() (the credentials of the connection's last successful AUTH), a per-connection counter kept in the connection's sync.Map and the connection UUID equal to that connection's own command history, where a SELECT or AUTH counts iff its reply was +OK (programs are sequential per connection, so the expectation is exact under any interleaving); UUIDs of different connections differ. Evidence reports distinct observed interleavings (hash of the global call order)"
 		},
 		Assumptions: []string{"the per-connection user data is observed through the sync.Map embedded in redis.Conn"},
 		Setup: func(tier string, seed uint64) int {
